@@ -105,7 +105,7 @@ KT = {0: "Ed25519", 1: "ECDSA", 2: "Secp256k1", 3: "RSA"}
 NAME = {0: '""', 1: "A", 2: "B", 3: "E", 9: "?"}
 EK = {0: "none", 1: "bytes of component changed", 2: "truncated", 3: "extended", 4: "dropped", 5: "length prefix enlarged",
       6: "duplicated", 7: "spliced from a second session"}
-CLS = {0: "completed", 1: "peer ID mismatch", 2: "bad signature", 3: "bad key/payload", 4: "noise read failed", 5: "i/o", 9: "not observed"}
+CLS = {0: "completed", 1: "peer ID mismatch", 2: "bad signature", 3: "bad key/payload", 4: "noise read failed", 5: "i/o", 8: "panic recovered into an error", 9: "not observed"}
 
 
 def side(t):
@@ -145,7 +145,9 @@ def describe(t):
                 d["forging_endpoint"] = {"is_initiator": t[19], "claims": {4: "junk", 5: "empty"}.get(t[20], NAME.get(t[20])),
                                          "signed_by": {4: "junk", 5: "empty"}.get(t[21], NAME.get(t[21])),
                                          "signed_message": {0: "prefix+static", 1: "prefix+another static", 2: "static only"}.get(t[22])}
-            o = t[24:]
+            if t[23]:
+                d["panic"] = {"in_initiator": t[24], "at": {0: "Write #%d on the insecure conn" % t[26], 1: "Read #%d on the insecure conn" % t[26], 2: "early-data handler Send", 3: "early-data handler Received"}.get(t[25])}
+            o = t[28:]
             d["observed"] = [{"initiator": [CLS.get(o[i]), NAME.get(o[i + 1])], "responder": [CLS.get(o[i + 3]), NAME.get(o[i + 4])]}
                              for i in range(0, len(o) - 5, 6)]
             return d
@@ -189,7 +191,7 @@ def nontrivial(line):
     # non-trivial: an edit was applied, a payload/certificate deviates, some side refused, or a wrong-peer conn was offered
     t = line.split()
     if t[0] == b"1":
-        return t[13] != b"0" or t[18] != b"0" or any(x != b"0" for x in t[24::3])
+        return t[13] != b"0" or t[18] != b"0" or t[23] != b"0" or any(x != b"0" for x in t[28::3])
     if t[0] == b"2":
         return t[-4] != b"0" or t[-2] != b"0"
     if t[0] == b"3":
@@ -208,7 +210,7 @@ def nontrivial(line):
 def key(tag, toks, d):
     # identity of a failure: stack, clause, call site/side, then the canonical history
     if toks[0] == 1:
-        return "C01:noise:%s:%s:cfg=%s:edit=%s:forge=%s" % (tag, d[:4], toks[1:13], toks[13:17], toks[18:23])
+        return "C01:noise:%s:%s:cfg=%s:edit=%s:forge=%s:panic=%s" % (tag, d[:4], toks[1:13], toks[13:17], toks[18:23], toks[23:27])
     if toks[0] == 2 and tag == "M" and len(d) >= 4 and d[2] == 8:
         # accepted a certificate that is not validly self-signed (1 signed by another key, 2 altered); d[1]: 0 callback, 1 direct
         return "C01:tls:PubKeyFromCertChain:%s:self-signature-not-checked:%d" % ({0: "ConfigForPeer-callback", 1: "direct"}.get(d[1]), d[3])
@@ -272,7 +274,8 @@ if __name__ == "__main__":
              "component boundary, cut by 1/16/17 bytes, length prefix enlarged, extended by 1/16 bytes, dropped, duplicated, spliced from a second concurrent session) of every message "
              "x 4x4 expected-peer settings x 5 prologue pairings; (C) every byte position of every handshake message (incl. the length prefix) flipped (sampled for the non-Ed25519 types in quick); "
              "(D) a cooperating malicious endpoint (flynn/noise driven directly) presenting 5 claimed identity keys x 7 signatures (own key over prefix+static / another static / static only, "
-             "recorded signatures of A and B, junk, empty) x 4 settings x 2 prologues x both roles. Observed per endpoint: error class or RemotePeer()/RemotePublicKey(). "
+             "recorded signatures of A and B, junk, empty) x 4 settings x 2 prologues x both roles; (E) faults: a panic at the k-th Write / Read on the insecure connection and in the early-data handler's Send / Received, "
+             "in either endpoint x 4 expected-peer settings x 2 prologues (a panic must be an error outcome, never a session whose peer was not verified). Observed per endpoint: error class or RemotePeer()/RemotePublicKey(). "
              "TLS: (2) the VerifyPeerCertificate callback of ConfigForPeer(exp) and PubKeyFromCertChain on certificates built with 29 presentations (extension public key / signature / certificate key replaced, "
              "victim's extension replayed, stolen certificate, extension absent / twice / not ASN.1 / critical, other extensions, chain length 0/2, signed by another key and altered after signing — the corpus of the repaired self-signature defect, now rejected —, expired) x 4 expectations x identities; "
              "(3) real tls.Transport pairs whose certificates were replaced by those presentations on either side x expected-peer settings, and a record-aware man in the middle: byte flips of every handshake record "
